@@ -561,6 +561,7 @@ func c20Replay(e *core.Env, data json.RawMessage) (bool, string) {
 func init() {
 	core.Register(&core.Check{
 		ID: "C20", Level: "model_checking", Run: c20Run, Replay: c20Replay,
+		Added:       "position life histories; --last and --commodity configurations; first period under --last measured from its own start; subset-collapsing -m rules; accrual in the alphabet (instalments are ordinary flows)",
 		QuickBudget: 100 * time.Second, ThoroughBudget: 14 * time.Minute,
 		Rule: "every journal of <= N directives over {deposits in CHF/USD/AAPL, withdrawal, transfer between asset accounts, salary, dividend with @performance, two price series} x 3 dates (period ends fall on days without directives) x valuation {CHF,USD} x intervals x --account/--commodity filters x universe file x -m; " +
 			"weights: every cell compared with value/total of the reference mark-to-market values (the same reference C03 validates against `balance -v`), groups = sum of members, columns = period ends with holdings; returns: exactly one line per period of the reference partition, 0% for periods without price change, end/start-1 for periods without flows (to the printed precision); non-trivial = runs that produce a report",
